@@ -115,6 +115,29 @@ def judge(ctx, q, data, info):
     if left:
         ctx.violation("method-form-operator-remains", f"{len(left)} remain | out: {astx.unparse(out)[:400]}", witness)
         return
+    # the very same input object converted a second time (the function works in place), and a DAG-shaped input in which
+    # one method-form call object sits under two parents
+    try:
+        second = change_extension_functions_to_calls(arg)
+        if not astx.struct_eq(second, exp):
+            ctx.violation("second-conversion-of-the-same-object-differs", f"{astx.first_diff(second, exp)} | in: {witness['query'][:300]} | second: {astx.unparse(second)[:300]}", witness)
+            return
+        if not astx.struct_eq(out, exp):
+            ctx.violation("first-result-changed-by-second-conversion", f"{astx.first_diff(out, exp)} | in: {witness['query'][:300]}", witness)
+            return
+        mcalls = [n for n in astx.walk_nodes(q) if isinstance(n, ast.Call) and isinstance(n.func, ast.Attribute) and n.func.attr in refimpl.OPERATOR_NAMES]
+        if mcalls:
+            shared = astx.clone(ctx.rnd.choice(mcalls))
+            dag = ast.Tuple(elts=[shared, ast.List(elts=[shared, astx.C(1)], ctx=ast.Load())], ctx=ast.Load())
+            dag_exp = refimpl.to_function_form(astx.clone(dag))
+            dag_out = change_extension_functions_to_calls(dag)
+            ctx.count("dag-inputs")
+            if not astx.struct_eq(dag_out, dag_exp):
+                ctx.violation("shared-node-converted-wrongly", f"{astx.first_diff(dag_out, dag_exp)} | shared call: {astx.unparse(shared)[:200]} | out: {astx.unparse(dag_out)[:300]}", witness)
+                return
+    except Exception as e:
+        ctx.violation(f"exc-on-repeat:{type(e).__name__}", f"{e} | in: {witness['query'][:300]}", witness)
+        return
     again = change_extension_functions_to_calls(astx.clone(out))
     if not astx.struct_eq(again, out):
         ctx.violation("not-idempotent", f"{astx.first_diff(again, out)} | in: {witness['query'][:400]}", witness)
@@ -143,6 +166,9 @@ DIRECTED = [
     "EventDataset().Select(lambda e: (e.Select, e.jets.Count, Select)[0] if False else e.x)",
     "EventDataset().Filter(lambda e: e.x).select(lambda e: e.jets.Count())",
     "f(x.Select(lambda a: a.Where(lambda b: b.First())), k=y.Count())",
+    "e.jets(calibration=e.raw.Select(lambda r: r.scale()), **{'k': e.trks.Count()})",
+    "ds.First().jets.Select(lambda j: j.pt)[0].trks.Count()",
+    "e.m(*e.jets.Select(lambda j: j.pt), k=[t.trks.Count() for t in e.jets.Where(lambda j: j.ok)])",
 ]
 
 
